@@ -107,7 +107,26 @@ namespace
             auto& key = arr->at(0);
             auto& value = arr->at(1);
             // ToDo: Check key-type matches
-            assign(data->map(), key, value);
+            auto& map = data->map();
+            auto res = map.find(key);
+            bool existed = res != map.end();
+            sqf::runtime::value oldval;
+            if (existed)
+            {
+                oldval = res->second;
+                res->second = value;
+            }
+            else
+            {
+                res = map.emplace(copy_key(key), value).first;
+            }
+            if (!data->recursion_test())
+            {
+                if (existed) { res->second = oldval; }
+                else { map.erase(res); }
+                runtime.__logmsg(err::ArrayRecursion(runtime.context_active().current_frame().diag_info_from_position()));
+                return {};
+            }
         }
         else
         {
